@@ -12,6 +12,12 @@ class RepoModule:
         if text is None:
             with open(path, "r", encoding="utf-8") as f:
                 text = f.read()
+        self.stripped = None
+        if relpath.endswith(".pyx"):
+            # Cython source: the Python-subset text is extracted mechanically on every run (pyvc/pyxstrip.py says what is dropped)
+            from .pyxstrip import strip
+            self.stripped = strip(text)
+            text = self.stripped.text
         self.text = text
         self.lines = text.splitlines()
         self.tree = ast.parse(text, filename=path)
